@@ -222,12 +222,12 @@ def stepSnapBegin (s : State) : State × Obs :=
     let s1 := walCloseSegment s
     ({ s1 with snap := s1.hot, hot := [], phase := .begun, snapClosed := walClosedIds s1, lastRec := false }, .ok)
   | .failed =>
-    -- retry of a failed attempt (Cache.Snapshot, `c.snapshot.Size() > 0`): what was written since
-    -- is folded into the snapshot store being retried (fixes/C02-snapshot-retry-covers-wal.patch;
-    -- before the fix the store was returned as it was while ALL closed segments were removed)
+    -- retry of a failed attempt: `Cache.Snapshot` returns the EXISTING snapshot store as it is
+    -- (`if c.snapshot.Size() > 0 { return c.snapshot, nil }`), the hot store is not swapped, yet
+    -- `WAL.ClosedSegments` now lists every closed segment, including those holding what was
+    -- written since the failed attempt (they are removed once the stale snapshot is on disk)
     let s1 := walCloseSegment s
-    ({ s1 with snap := s1.snap ++ s1.hot, hot := [], phase := .begun, snapClosed := walClosedIds s1,
-               lastRec := false }, .ok)
+    ({ s1 with phase := .begun, snapClosed := walClosedIds s1, lastRec := false }, .ok)
 
 /-- `WriteSnapshot` with the compactor refusing: Cache.Snapshot happens, then
     writeSnapshotAndCommit fails and runs `ClearSnapshot(false)`; an empty snapshot returns
